@@ -218,6 +218,21 @@ Theorem C12_routes_equal_per_class :
 Proof. exact routes_per_class. Qed.
 Print Assumptions C12_routes_equal_per_class.
 
+(* to_filename derives the file map from the NAME alone: whatever file_map the image object had
+   before (m1, m2 arbitrary), the same files get the same bytes, the image's new file_map is
+   filespec_to_file_map of the name, and the file written is the one that map names *)
+Theorem C12_to_filename_name_only :
+  forall (Img : Type) (serialize : Img -> list Z) (compress : option nat -> list Z -> list Z)
+         (keys : list str) k c m1 m2 name fs,
+  to_filename_st Img serialize compress keys k (mkI Img c m1) name fs
+  = to_filename_st Img serialize compress keys k (mkI Img c m2) name fs
+  /\ forall st' fs', to_filename_st Img serialize compress keys k (mkI Img c m1) name fs = Ok (Some (st', fs')) ->
+       filespec_to_file_map k name = Ok (imap Img st')
+       /\ exists key fname, imap Img st' = [(key, fname)]
+            /\ fs' = (fname, compress (opener_index keys fname) (serialize c)) :: fs.
+Proof. exact to_filename_name_only. Qed.
+Print Assumptions C12_to_filename_name_only.
+
 (* non-vacuity: NIfTI-1 pair, root with a directory, a space and a dot, Mixed-case header
    extension, Mixed-case .gz: hypotheses hold, the header is the name given, the image follows *)
 Example C12_nonvacuous :
